@@ -1,4 +1,5 @@
 import asyncio
+import copy
 import socket
 from contextlib import asynccontextmanager
 from typing import AsyncGenerator, Callable, Optional, cast
@@ -64,6 +65,9 @@ async def connect(
     if configuration is None:
         configuration = QuicConfiguration(is_client=True)
     if configuration.server_name is None:
+        # Leave the caller's configuration alone: if it is used to connect to
+        # another host later on, that connection needs the other host's name.
+        configuration = copy.copy(configuration)
         configuration.server_name = host
     connection = QuicConnection(
         configuration=configuration,
